@@ -86,6 +86,8 @@ class PbnParser(Parser):
 
     TAG_PATTERN = r'\[[ ]?([A-Z][a-zA-Z]+) "([^"]*)"[ ]?\]'
     REPLACE_PATTERN = r'[ \t\r\n]+'
+    # a quoted tag value, or a run of white space outside of one
+    _VALUE_OR_SPACE_PATTERN = r'"[^"]*"|[ \t\r\n]+'
 
     # TODO: This method only parses tag pairs.
     #  Add a function to parse optional annotations such as auction and play.
@@ -95,7 +97,11 @@ class PbnParser(Parser):
         :return: Dict converted from tag pairs.
         """
         string = ''.join(self.tag_pair_buffer)
-        string = re.sub(self.REPLACE_PATTERN, ' ', string)
+        # White space is collapsed between tokens only: a tag value is kept
+        # as it was written.
+        string = re.sub(self._VALUE_OR_SPACE_PATTERN,
+                        lambda m: m.group(0) if m.group(0)[0] == '"' else ' ',
+                        string)
         tag_pairs = re.findall(self.TAG_PATTERN, string, )
 
         game_mem = dict()
